@@ -43,3 +43,18 @@ package extendeddaemonsetreplicaset
 //@   loop 3 invariant forall s string :: (s in podsByNodeName) ==> loopfresh(podsByNodeName[s])
 //@   loop 3 modifies mapof(podsByNodeName)
 //@   loop 4 invariant true
+//@
+//@ func (*Reconciler).getPodList
+//@   logs
+//@   requires r != nil && r.client != nil && ds != nil
+//@   modifies nothing
+//@   ensures [C12] pod-list-is-restricted-to-the-namespace: forall k int :: lognew(k) ==> logverb(k) == "List" && lognamespaced(k) && logns(k) == ds.ObjectMeta.Namespace
+//@
+//@ func (*Reconciler).getOldDaemonsetPodList
+//@   logs
+//@   requires r != nil && r.client != nil && ds != nil
+//@   modifies nothing
+//@   ensures [C12] migrated-pod-list-is-restricted-to-the-namespace: forall k int :: lognew(k) && logverb(k) == "List" ==> lognamespaced(k) && logns(k) == ds.ObjectMeta.Namespace
+//@   ensures [C12] only-reads: forall k int :: lognew(k) ==> logverb(k) == "List" || logverb(k) == "Get"
+//@   loop 1 invariant true
+//@   loop 2 invariant true
